@@ -59,7 +59,7 @@ var lazyMuts = []string{`%E.x = 1`, `%E[%K] = 2`, `Object.defineProperty(%E,%K,{
 	`Reflect.set(%E,%K,5)`, `Reflect.deleteProperty(%E,%K)`, `Object.defineProperty(%E,%K,{writable:false})`}
 
 func lazyQuarantined(target string) bool {
-	if quarantine["C04-lazy-function-prototype-order"] {
+	if quarantine[qLazyProto] {
 		switch target {
 		case "f0", "f1":
 			return true
